@@ -20,6 +20,7 @@ from vf.refs import mbi_rom
 
 ID = "C01"
 ROTATING_PKI = 0.3  # fraction of the key / certificate paths that are rotating slots (vf/pki.py)
+DECOY_CWD = True  # the worker runs in a directory that holds other bytes under every input file name (vf/worker.py)
 LEVEL = "exploration"
 TECHNIQUE = ("runtime monitoring: round-trip oracle from the inputs + independent header-word decoder + "
              "stage-pair (revert) monitor on the export/parse pipeline + CLI path via CliRunner")
